@@ -371,7 +371,54 @@ func JoinShapeExpr(r *rand.Rand, o PQOpts) string {
 	arith := func() string { return g.pick([]string{"*", "/", "+", "-", ">", "<", "=="}) }
 	setop := func() string { return g.pick([]string{"and", "unless", "or"}) }
 	side := func() string { return g.pick([]string{"group_left", "group_right"}) }
-	switch r.Intn(9) {
+	switch r.Intn(11) {
+	case 9, 10: // an operation with ignoring(L) on a left side that guarantees L and another label, joined again without on()
+		perm := r.Perm(len(o.Labels))
+		if len(perm) < 3 {
+			return sel()
+		}
+		l1, l2, l3 := o.Labels[perm[0]], o.Labels[perm[1]], o.Labels[perm[2]]
+		// (values that the generated databases use and mostly bare selectors, so that the operations return something)
+		v := func() string { return g.pick([]string{"x", "y"}) }
+		sel := func() string {
+			if r.Intn(3) > 0 {
+				return g.pick(o.Metrics)
+			}
+			return g.selector()
+		}
+		left := fmt.Sprintf("%s{%s=\"%s\", %s=\"%s\"}", g.pick(o.Metrics), l1, v(), l2, v())
+		inner := g.pick([]string{"and", "unless", ">", "<", "==", "!=", "*", "+", "> bool"})
+		mod := fmt.Sprintf("ignoring(%s)", g.pick([]string{l1, l1 + ", " + l3}))
+		if r.Intn(4) == 0 && inner != "and" && inner != "unless" {
+			mod += fmt.Sprintf(" %s()", side())
+		}
+		other := g.pick([]string{
+			fmt.Sprintf("%s by(%s) (%s)", agg(), l2, sel()),
+			fmt.Sprintf("%s without(%s) (%s)", agg(), l1, sel()),
+			fmt.Sprintf("%s by(%s, %s) (%s)", agg(), l2, l3, sel()),
+			fmt.Sprintf("%s by(%s) (%s)", agg(), l1, sel()),
+		})
+		outer := g.pick([]string{"*", "/", ">", "and", "unless"})
+		if r.Intn(2) == 0 {
+			// match the two sides on l2 alone: ignore every other label of the universe on the outer join as well
+			var rest []string
+			for _, l := range o.Labels {
+				if l != l2 {
+					rest = append(rest, l)
+				}
+			}
+			other = fmt.Sprintf("%s by(%s) (%s)", agg(), l2, g.pick(o.Metrics))
+			outer = g.pick([]string{"*", "/", "+"}) + " ignoring(" + strings.Join(rest, ", ") + ") group_left()"
+			if r.Intn(3) == 0 {
+				outer = g.pick([]string{"and", "unless"}) + " ignoring(" + strings.Join(rest, ", ") + ")"
+			}
+		}
+		first := fmt.Sprintf("(%s %s %s %s)", left, inner, mod, sel())
+		if r.Intn(3) == 0 {
+			// the same right-hand side met by two sources
+			first = fmt.Sprintf("(%s or %s)", first, fmt.Sprintf("(%s{%s=\"%s\"} %s %s %s)", g.pick(o.Metrics), l2, v(), inner, mod, sel()))
+		}
+		return fmt.Sprintf("%s %s %s", first, outer, other)
 	case 8: // the many side lost a label that the group modifier copies back from a one side that is unique per on() label
 		perm := r.Perm(len(o.Labels))
 		if len(perm) < 3 {
